@@ -45,7 +45,8 @@ OWN = {"C03": set(FLAGS) - {"NothingToUnverified"} | {"ErrorNamesBoth", "NoConte
 _CTX = None
 # c1 and c2 are look-alikes: same subject / issuer name and the same serial number, different keys (EC and RSA)
 DER = {"c1": make_cert("ec", "capsule.example", serial=20250101, tag="one")[2],
-       "c2": make_cert("rsa", "capsule.example", serial=20250101, tag="two")[2], "unreadable": b"\x30\x03\x01\x01\x01"}
+       "c2": make_cert("rsa", "capsule.example", serial=20250101, tag="two", expired=True)[2],      # ... and c2 is past its notAfter date
+       "unreadable": b"\x30\x03\x01\x01\x01"}
 FP = {k: "sha256:" + hashlib.sha256(v).hexdigest() for k, v in DER.items()}
 FP_INV = {v: k for k, v in FP.items()}
 
@@ -82,7 +83,7 @@ class World:
         world = self
 
         async def create_connection(factory, host=None, port=None, ssl=None, server_hostname=None, **kw):
-            hp = "%s:%d" % (host, port)
+            hp = "%s:%d" % (host.lower(), port)      # name resolution is case-insensitive
             if world.race is not None and world.race[0] == hp:
                 # TCP connect + TLS handshake take time: meanwhile somebody else pins this host in the same store
                 from nauyaca.security.tofu import TOFUDatabase
@@ -161,6 +162,9 @@ class World:
                 self.race = (h, act[3])
             if kind == "CallStoreFault":
                 sqlfault.arm(act[3])
+            # host names are case-insensitive: the caller (and a redirecting server) may capitalise them any way
+            self.ncalls = getattr(self, "ncalls", 0) + 1
+            host = [host, host.upper(), host.capitalize(), host][self.ncalls % 4]
             try:
                 if ep == "get":
                     res = self.call(self.client.get("gemini://%s:%d/page?q=SECRETQUERY" % (host, port)))
@@ -250,6 +254,8 @@ class ScriptedPeer(FakeTransport):
             tgt = self.world.redirect.get(self.hp)
             if tgt and self.inbuf.startswith(b"gemini://") and b"/start" in self.inbuf:
                 host, port = split_hp(tgt)
+                if self.conn_index % 2:
+                    host = host.upper()
                 reply = ("31 gemini://%s:%d/landing\r\n" % (host, port)).encode()
             else:
                 reply = b"20 text/gemini\r\nCONTENT-OF-" + self.hp.encode() + b"\n"
